@@ -208,6 +208,15 @@ def run(ctx):
         ctx.decline(u)
     _forwarding(ctx)
     _beta_gamma(ctx, L)
+    from .. import singular
+
+    ctx.rule("C13.singular-points",
+             "for the 27 unary compute modules (accessors, norms, unit, beta, gamma, rapidity, Et, Mt, to_beta3): the value of every entry at stored-coordinate points with a group at "
+             "a singular value (zero azimuth, theta in {0, pi}, eta in {+-inf, 0}, z = 0, t = 0, tau = 0 - 3528 points), computed from the inlined IR in IEEE point semantics, equals the "
+             "convention frozen from the pinned tree in tables/singular.json (zero vector -> 0, on-axis eta -> +-inf with the sign of z, t from tau >= 0 ...): reported when a finite "
+             "value became NaN/inf or changed, or an infinity changed sign; a frozen NaN that became finite is accepted")
+    nsp = singular.obligations(ctx, L, "C13.singular-points")
+    ctx.anchor("entries with frozen singular-point conventions", nsp, 200)
     ctx.decline("sign of costheta/cottheta on theta- and eta-stored signatures is not decided here; those entries are proved equal to the z-stored entry (whose sign is decided by C13.z-sign) under C01.base-agreement")
     ctx.decline("behaviour exactly at interval boundaries in float64 (open vs closed endpoints are not distinguished)")
 
